@@ -901,6 +901,13 @@ where
                                 )
                                 .is_err()
                             {
+                                if written > 0 {
+                                    // what has been stored so far is a
+                                    // write all the same
+                                    data.open_files[file_idx].entry.attributes.set_archive(true);
+                                    data.open_files[file_idx].entry.mtime =
+                                        self.time_source.get_timestamp();
+                                }
                                 return Err(Error::DiskFull);
                             }
                             debug!("Allocated new FAT cluster, finding offsets...");
